@@ -79,6 +79,9 @@ SAFE_NUMS = [0, 1, 2, 0.5, 3, 10, -1, -2, 64, 7]
 STRINGS = ['', 'a', 'abc', '1', 'null', '2024-01-01', '{"a":1}', 'x,y\n1,2', '(', 'é𝄞', 'true']
 NO_HUGE = {'arrayNewSize', 'numberToFixed', 'mathRound', 'datetimeNew', 'stringRepeat', 'jsonStringify', 'fixed', 'round',
            'rept', 'date'}
+# jsonStringify with an indent on a 25000-level value builds ~1e10 characters before it fails (a magnitude that makes
+# CPython itself churn for minutes, like the others listed under ASSUMPTIONS)
+PATHO_EXCLUDE = {'jsonStringify', 'arrayNewSize', 'stringRepeat', 'schemaParse', 'schemaParseEx'}
 EXCLUDED_FUNCS = {'datetimeNow', 'datetimeToday', 'mathRandom', 'now', 'today', 'rand', 'systemLog', 'systemLogDebug'}
 
 
@@ -188,7 +191,7 @@ def lib_call(rng, names):
             args.append(ir.call('arrayNew', ir.num(1), ir.s('a'), ir.var('null')))
         elif c < 0.86:
             args.append(ir.call('objectNew', ir.s('a'), ir.num(1)))
-        elif c < 0.885:
+        elif c < 0.885 and name not in PATHO_EXCLUDE:
             args.append(ir.var(rng.choice(['gDeep', 'gCyc', 'gDeepObj'])))
         elif c < 0.90:
             args.append(ir.var(rng.choice(['fnA', 'hostTick'])))
@@ -326,21 +329,28 @@ def host_call_sites(events):
     return out
 
 
-def check_escape_value(out, viols, where):
+def check_escape_value(out, viols, where, producers=None):
     if out.error is not None and out.error[0] == 'host':
         viols.append(Violation(PROP, 'escape', f'host-exception-escapes:{out.error[1]}:{where}',
                                {'exception': out.error[1], 'message': out.error[2]}))
         return False
     bad = []
+    producer = None
+    n_obs = 0
     for ev in out.events:
         if ev[0] in ('obs', 'tick', 'call', 'ret'):
-            bad.extend(find_non_values(ev[1]))
+            found = find_non_values(ev[1])
+            if found and not bad and ev[0] == 'obs' and producers is not None and n_obs < len(producers):
+                producer = producers[n_obs]
+            bad.extend(found)
+        if ev[0] == 'obs':
+            n_obs += 1
     if out.result is not None:
         bad.extend(find_non_values(out.result))
     for k, v in (out.globals or {}).items():
         bad.extend(find_non_values(v, '$' + k))
     if bad:
-        viols.append(Violation(PROP, 'value', f'non-barescript-value:{bad[0][1]}:{where}', {'paths': bad[:4]}))
+        viols.append(Violation(PROP, 'value', f'non-barescript-value:{bad[0][1]}:{producer or where}', {'paths': bad[:4]}))
         return False
     return True
 
@@ -474,7 +484,7 @@ def run_adversarial(plan, stats):
             outs[debug] = out
             dig.append(out.summary())
             where = classify_adversarial(plan, out)
-            if not check_escape_value(out, viols, where):
+            if not check_escape_value(out, viols, where, producers_of(plan)):
                 break
             if out.error is not None:
                 viols.append(Violation(PROP, 'continue', f'run-ended-with-error:{where}', {'error': out.error}))
@@ -543,6 +553,16 @@ def check_fetch_shapes(plan, obs):
             if not (value is None or isinstance(value, str)):
                 return {'statement': ix, 'expected': 'string or null', 'observed': value}
     return None
+
+
+def producers_of(plan):
+    """For each observed statement of an adversarial program: what produced the observed value."""
+    out = []
+    for st in plan['model']:
+        if 'expr' in st and st['expr'].get('name', '').startswith('r'):
+            (k, v), = st['expr']['expr'].items()
+            out.append(f'function {v["name"]}' if k == 'function' else (f'operator {v["op"]}' if k == 'binary' else k))
+    return out
 
 
 def classify_adversarial(plan, out):
